@@ -50,12 +50,12 @@ Print Assumptions C18_record_prefix_free.
    followed by a restore that completes, returns every backed-up file to the
    content it had at backup time. *)
 Theorem C18_restore_identical :
-  forall b files ts f0 m f1 m1 (us : list uop) f3,
+  forall (fixed : bool) b files ts f0 m f1 m1 (us : list uop) f3,
     (forall p, under (backup_dir b) p = true -> lookup f0 p = None) ->
     Forall (fun f => under (backup_dir b) f = false) files ->
     Forall valid_file files -> json_ok ts ->
     mgr_get m b = None ->
-    create_backup m f0 files b ts = (f1, m1, Ok true) ->
+    create_backup fixed m f0 files b ts = (f1, m1, Ok true) ->
     Forall (fun u => under (backup_dir b) (utarget u) = false) us ->
     restore_backup m1 (fold_left (fun f u => uapply u f) us f1) b [] = (f3, Ok tt) ->
     forall f, In f files -> exists c, read f0 f = Some c /\ read f3 f = Some c.
@@ -76,23 +76,50 @@ Theorem C18_restore_tasks_touches_only :
 Proof. exact restore_touches_only_lemma. Qed.
 Print Assumptions C18_restore_tasks_touches_only.
 
-(* Never overwritten: when the manager lists the name, create_backup returns
+(* Never overwritten (the code after the fix: commit, [create_backup true]): for
+   ANY manager object -- fresh, or constructed before the backup existed -- and
+   ANY file system in which backups/<name> exists on disk, create_backup returns
    False and performs no effect at all. *)
 Theorem C18_never_overwritten :
-  forall (m : mgr) (f : fs) files (b : name) ts ks,
-    mgr_get m b = Some ks -> create_backup m f files b ts = (f, m, Ok false).
+  forall (m : mgr) (f : fs) files (b : name) ts,
+    exists_ f (backup_dir b) = true ->
+    create_backup true m f files b ts = (f, m, Ok false).
 Proof. exact never_overwritten_lemma. Qed.
 Print Assumptions C18_never_overwritten.
 
-(* FULL statement "an existing backup of that name is never overwritten" is
-   FALSE when the existence test is made against the manager's cached
-   dictionary: a manager constructed before the backup existed copies the
-   (modified) data files over the existing backup.  (Finding C18-F1.) *)
+(* ... hence for every backup that a fresh manager lists on that file system,
+   whatever the calling manager object [m] has cached. *)
+Theorem C18_never_overwritten_listed :
+  forall (m : mgr) (f : fs) files (b : name) ts mdisk rec,
+    get_backups f = Ok mdisk -> mgr_get mdisk b = Some rec ->
+    create_backup true m f files b ts = (f, m, Ok false).
+Proof. exact never_overwritten_listed_on_disk. Qed.
+Print Assumptions C18_never_overwritten_listed.
+
+(* A crash of create_backup followed by a later create_backup of the same name
+   (repaired code, any manager object, any new selection): either the crash
+   happened before the first effect (the tree is the untouched initial one), or
+   the later call refuses and changes nothing -- so the outcome stays the one
+   C18_crash_consistent describes (raises / not listed / listed and complete);
+   a half-made backups/<name> is never completed, overwritten or made listable. *)
+Theorem C18_crash_then_create :
+  forall (b : name) (files : list path) (ts : str) (f0 : fs),
+    (forall p, under (backup_dir b) p = true -> lookup f0 p = None) ->
+    forall (i : nat) (k : option nat) (m : mgr) files' ts',
+      let fc := crash f0 (create_effects b files ts) i k in
+      fc = f0 \/ create_backup true m fc files' b ts' = (fc, m, Ok false).
+Proof. exact crash_then_create_lemma. Qed.
+Print Assumptions C18_crash_then_create.
+
+(* RECORD OF THE REPAIRED DEFECT (C18-F1, code before the fix: commit,
+   [create_backup false]): the existence test was made against the manager's
+   cached dictionary only, so a manager constructed before the backup existed
+   copied the (modified) data files over the existing backup. *)
 Theorem C18_never_overwritten_stale_refuted :
   exists (m : mgr) (f : fs) files b ts f' m' file,
     mgr_get m b = None /\
     (exists rec, get_backups f = Ok [(b, rec)]) /\
-    create_backup m f files b ts = (f', m', Ok true) /\
+    create_backup false m f files b ts = (f', m', Ok true) /\
     In file files /\
     read f' (get_backup_path b file) <> read f (get_backup_path b file).
 Proof. exact stale_manager_overwrites. Qed.
@@ -138,3 +165,8 @@ Example C18_nonvacuous :
   (get_backups (crash ex_f0 (create_effects ex_b ex_files ex_ts) 5 (Some 20)) = Exn ValueError /\
    get_backups (crash ex_f0 (create_effects ex_b ex_files ex_ts) 4 (Some 0)) = Exn HedFileError).
 Proof. exact ex_nonvacuous. Qed.
+
+(* the repaired code refuses on the witness of C18-F1 *)
+Example C18_fixed_refuses_witness :
+  create_backup true [] ex_f2 ex_files ex_b ex_ts = (ex_f2, [], Ok false).
+Proof. exact ex_fixed_refuses. Qed.
